@@ -6,11 +6,16 @@
    additive dimensions in itertools.combinations order, each prefixed by all single dimensions;
    arbf_args emits scale[0], then scale[1] na times, scale[2] C(na,2) times, scale[3] C(na,3) times.
    The term with no dimension at all (ns = 0, o = 0) is not a spline: it is the constant
-   scale[0] * sum(alpha), added exactly once. *)
+   scale[0] * sum(alpha), added exactly once.
+
+   The mapped kernel reads a SUBSET of the feature vector: column c of the restricted control-point matrix is feature
+   inds[c], inds = singles followed by additive dimensions, wherever those sit in the feature vector (Layouts).  The
+   evaluator receives the terms in FEATURE indices, and the spline axis of a column must span the bounded domain of
+   the feature the column was taken from (AxisKinds) -- features have different bounds (BoundKind). *)
 EXTENDS Integers, Sequences, FiniteSets, TLC
-CONSTANTS MaxNA, MaxNS, MaxOrder
-VARIABLES cfg, terms, scales
-vars == <<cfg, terms, scales>>
+CONSTANTS MaxNA, MaxNS, MaxOrder, Layouts
+VARIABLES cfg, terms, scales, gterms, kinds
+vars == <<cfg, terms, scales, gterms, kinds>>
 \* combinations of k elements of lo..hi as increasing sequences, in lexicographic order
 RECURSIVE Comb(_, _, _)
 Comb(lo, hi, k) == IF k = 0 THEN <<<<>>>>
@@ -24,10 +29,23 @@ TermsOf(ns, na, order) ==
            [k \in 1..ns |-> k - 1] \o Comb(ns, ns + na - 1, o1 - 1)[i]]])
 Binom(n, k) == Len(Comb(1, n, k))
 ScaleIdxOf(na, order) == Flat([o1 \in 1..(order + 1) |-> [i \in 1..Binom(na, o1 - 1) |-> o1 - 1]])
-Init == cfg = <<>> /\ terms = <<>> /\ scales = <<>>
-Pick(ns, na, order) == /\ cfg = <<>> /\ cfg' = <<ns, na, order>>
-                       /\ terms' = TermsOf(ns, na, order) /\ scales' = ScaleIdxOf(na, order)
-Next == \E ns \in 0..MaxNS, na \in 1..MaxNA, order \in 1..MaxOrder : order <= na /\ Pick(ns, na, order)
+\* where the singles / additive dimensions sit in the feature vector (0-based feature indices, column order)
+Inds(ns, na, layout) ==
+  CASE layout = "front" -> [c \in 1..(ns + na) |-> c - 1]                                  \* singles first: identity
+    [] layout = "back"  -> [c \in 1..(ns + na) |-> IF c <= ns THEN na + c - 1 ELSE c - ns - 1]  \* additive block first
+    [] layout = "gap"   -> [c \in 1..(ns + na) |-> IF c <= ns THEN c ELSE c + 1]              \* unused features 0 and ns+1
+NFeatures(ns, na, layout) == IF layout = "gap" THEN ns + na + 2 ELSE ns + na
+\* bound class of feature f in the harness's feature list: 0: (0,1)  1: (-1,1)  2: (-1/2,3/2)
+BoundKind(f) == f % 3
+Init == cfg = <<>> /\ terms = <<>> /\ scales = <<>> /\ gterms = <<>> /\ kinds = <<>>
+Pick(ns, na, order, layout) ==
+  /\ cfg = <<>> /\ cfg' = <<ns, na, order, layout>>
+  /\ terms' = TermsOf(ns, na, order) /\ scales' = ScaleIdxOf(na, order)
+  /\ LET T == TermsOf(ns, na, order) I == Inds(ns, na, layout)
+     IN /\ gterms' = [t \in 1..Len(T) |-> [k \in 1..Len(T[t]) |-> I[T[t][k] + 1]]]
+        /\ kinds' = [t \in 1..Len(T) |-> [k \in 1..Len(T[t]) |-> BoundKind(I[T[t][k] + 1])]]
+Next == \E ns \in 0..MaxNS, na \in 1..MaxNA, order \in 1..MaxOrder, layout \in Layouts :
+           order <= na /\ (layout = "back" => ns > 0) /\ Pick(ns, na, order, layout)
 Spec == Init /\ [][Next]_vars
 \* ---- invariants
 SameLength == cfg # <<>> => Len(terms) = Len(scales)
@@ -35,5 +53,13 @@ SameLength == cfg # <<>> => Len(terms) = Len(scales)
 ScaleMatchesOrder == cfg # <<>> => \A t \in 1..Len(terms) : scales[t] = Len(terms[t]) - cfg[1]
 ConstantOnce == cfg # <<>> => Cardinality({t \in 1..Len(terms) : Len(terms[t]) = cfg[1] /\ scales[t] = 0}) = 1
 NoDuplicateTerms == cfg # <<>> => \A s, t \in 1..Len(terms) : terms[s] = terms[t] => s = t
-Emit == cfg # <<>> => PrintT(<<"TERMS", cfg, terms, scales>>)
+\* every feature index in range, no feature twice within a term, unused features never referenced
+GlobalTermsWellFormed ==
+  cfg # <<>> => \A t \in 1..Len(gterms) :
+      /\ \A k \in 1..Len(gterms[t]) : gterms[t][k] \in 0..(NFeatures(cfg[1], cfg[2], cfg[4]) - 1)
+      /\ \A j, k \in 1..Len(gterms[t]) : gterms[t][j] = gterms[t][k] => j = k
+      /\ (cfg[4] = "gap" => \A k \in 1..Len(gterms[t]) : gterms[t][k] \notin {0, cfg[1] + 1})
+\* the axis of a column carries the bound class of the feature the column was taken FROM
+AxisKinds == cfg # <<>> => \A t \in 1..Len(gterms) : \A k \in 1..Len(gterms[t]) : kinds[t][k] = BoundKind(gterms[t][k])
+Emit == cfg # <<>> => PrintT(<<"TERMS", cfg, terms, scales, gterms, kinds>>)
 =============================================================================
